@@ -119,7 +119,9 @@ Inductive dg :=
 | IndexOutOfRange | IndexOutOfRangeWeak | IndexEqualsRange | NegativeIndex | NegativeIndexWeak | NegativeSize
 | StartIndexExceedsToIndexWeak | ReturningNil | ReturningEmptyArray | ReturningEmptyString
 | ExpectedArrayToHaveElements | ExpectedArrayToHaveElementsWeak | FormatInvalidPlaceholder
-| InvalidAssemblyInstruction.
+| InvalidAssemblyInstruction
+| MarkerNotExisting | MarkerAlreadyExisting | ExpectedNonNullValue | ExpectedNonNullValueWeak | ReturningConfigNull
+| LibraryNameContainsPath | ExtensionRuntimeError | ReturningErrorCode.
 Definition dg_code (d : dg) : Z * Z :=
   match d with
   | ExpectedArraySizeMissmatch => d_ExpectedArraySizeMissmatch
@@ -142,6 +144,14 @@ Definition dg_code (d : dg) : Z * Z :=
   | ExpectedArrayToHaveElementsWeak => d_ExpectedArrayToHaveElementsWeak
   | FormatInvalidPlaceholder => d_FormatInvalidPlaceholder
   | InvalidAssemblyInstruction => d_InvalidAssemblyInstruction
+  | MarkerNotExisting => d_MarkerNotExisting
+  | MarkerAlreadyExisting => d_MarkerAlreadyExisting
+  | ExpectedNonNullValue => d_ExpectedNonNullValue
+  | ExpectedNonNullValueWeak => d_ExpectedNonNullValueWeak
+  | ReturningConfigNull => d_ReturningConfigNull
+  | LibraryNameContainsPath => d_LibraryNameContainsPath
+  | ExtensionRuntimeError => d_ExtensionRuntimeError
+  | ReturningErrorCode => d_ReturningErrorCode
   end.
 
 (* what a call leaves behind, as far as the guard decides it *)
@@ -156,6 +166,7 @@ Inductive res :=
 | RStored (i n : Z)             (* element i was written, the array now has n elements *)
 | RTokens (l : list (Z * Z))    (* splitString: (start, length) of every token *)
 | RWalk (l : list Z)            (* the container ids an iteration visits, in order *)
+| RShape (rows cols : Z)        (* a new array of rows arrays of cols numbers each *)
 | ROther.                       (* a value the guard model does not describe *)
 
 (* Ret: the call completes with these diagnostics (in order), this result, and at most al element slots / bytes
